@@ -603,6 +603,28 @@ func (c *EvalCtx) evalCall(e *Expr) CV {
 			return CV{VT{v.Typ}, nil}
 		}
 		evalFail("typeOf of non-interface")
+	case "holdsPtrTo":
+		// holdsPtrTo(i, T): the dynamic type of interface value i is *T (T a type of the package in scope)
+		if len(e.Args) != 2 || e.Args[1].Op != "name" {
+			evalFail("holdsPtrTo(interface, TypeName)")
+		}
+		v, ok := arg(0).V.(VIface)
+		if !ok {
+			evalFail("holdsPtrTo of non-interface")
+		}
+		var sp *ssa.Package
+		if c.pkg != "" {
+			sp = vc.P.ByPkg[c.pkg]
+		}
+		if sp == nil && c.f.fn != nil {
+			sp = c.f.fn.Pkg
+		}
+		if sp != nil {
+			if tn, ok := sp.Members[e.Args[1].Name].(*ssa.Type); ok {
+				return CV{VT{B.Eq(v.Typ, B.Int(int64(vc.typeID(typeKey(types.NewPointer(tn.Type()))))))}, nil}
+			}
+		}
+		evalFail("holdsPtrTo: unknown type %s", e.Args[1].Name)
 	case "dataOf":
 		if v, ok := arg(0).V.(VIface); ok {
 			return CV{VT{v.Data}, nil}
@@ -695,6 +717,14 @@ func (c *EvalCtx) evalCall(e *Expr) CV {
 			return CV{c.quantLoad(a, "", st), st}
 		}
 		return CV{vc.loadTyped(c.st, a, "", st), st}
+	case "bytesAt":
+		// bytesAt(p): the []byte header stored at address p
+		a := c.evalInt(e.Args[0])
+		bt := types.NewSlice(types.Universe.Lookup("byte").Type())
+		if c.inQuant > 0 {
+			return CV{c.quantLoad(a, "", bt), bt}
+		}
+		return CV{vc.loadTyped(c.st, a, "", bt), bt}
 	case "cast":
 		// cast(p, T): view the pointer value p as *T (T a struct type of the package in scope)
 		if len(e.Args) != 2 || e.Args[1].Op != "name" {
